@@ -49,7 +49,7 @@ def run_one(spec, prefix, limits=Limits):
     except RecursionError:
         kind, info = 'budget', 'python recursion limit (call depth)'
     model_input = None
-    if kind in ('fail', 'panic', 'oob', 'budget') or spec.get('want_models'):
+    if kind in ('fail', 'panic', 'oob', 'budget', 'alloc') or spec.get('want_models'):
         try:
             m = p.feasible_model()
             model_input = bytes((m.eval(syms[i], model_completion=True).as_long() if i in syms else int(c))
@@ -75,7 +75,7 @@ def explore_subtree(args):
             res['covers'] |= p.covers; res['fns'] |= p.fn_hits
             res['max_heap'] = max(res['max_heap'], p.heap_total); res['max_steps_path'] = max(res['max_steps_path'], p.steps)
             stack.extend(p.alts)
-            if kind in ('fail', 'panic', 'oob', 'budget'):
+            if kind in ('fail', 'panic', 'oob', 'budget', 'alloc'):
                 if len(res['violations']) < 20:
                     res['violations'].append({'kind': kind, 'info': str(info), 'input_hex': inp.hex() if inp is not None else None,
                                               'decisions': len(p.trace)})
@@ -100,52 +100,89 @@ def _init_worker(ll_files):
     init_world(ll_files)
 
 
-def explore(spec, ll_files, jobs, max_paths=10**9, max_seconds=10**9, pool=None):
-    """Full exploration of one check. Returns an aggregate result dict."""
-    t0 = time.time()
+def new_agg():
+    return {'paths': 0, 'ends': collections.Counter(), 'violations': [], 'unsupported': [], 'steps': 0, 'queries': 0, 'solver_s': 0.0,
+            'covers': set(), 'samples': [], 'fns': set(), 'max_heap': 0, 'max_steps_path': 0, 'complete': False}
+
+
+def merge(agg, res):
+    agg['paths'] += res['paths']; agg['steps'] += res['steps']; agg['queries'] += res['queries']; agg['solver_s'] += res['solver_s']
+    agg['ends'].update(res['ends']); agg['covers'] |= set(res['covers']); agg['fns'] |= set(res['fns'])
+    agg['max_heap'] = max(agg['max_heap'], res['max_heap']); agg['max_steps_path'] = max(agg['max_steps_path'], res['max_steps_path'])
+    if len(agg['violations']) < 20: agg['violations'].extend(res['violations'])
+    if len(agg['unsupported']) < 10: agg['unsupported'].extend(res['unsupported'])
+    if len(agg['samples']) < 4: agg['samples'].extend(res['samples'])
+
+
+def explore_many(specs, ll_files, jobs, pool=None, progress=None):
+    """Explore several checks concurrently on one worker pool. Returns the list of aggregate results (same order)."""
     own = pool is None
     if own:
         pool = mp.Pool(jobs, initializer=_init_worker, initargs=(ll_files,))
-    agg = {'paths': 0, 'ends': collections.Counter(), 'violations': [], 'unsupported': [], 'steps': 0, 'queries': 0, 'solver_s': 0.0,
-           'covers': set(), 'samples': [], 'fns': set(), 'max_heap': 0, 'max_steps_path': 0, 'complete': False}
-    work = collections.deque([()])
-    pending = []
+    n = len(specs)
+    aggs = [new_agg() for _ in specs]
+    works = [collections.deque([()]) for _ in specs]
+    inflight = [0] * n
+    started = [None] * n
+    finished = [None] * n
+    stopped = [False] * n
+    pending = []          # (spec index, async result)
+    nxt = 0
     try:
-        while work or pending:
-            # dispatch
-            while work and len(pending) < jobs:
-                budget = max(2, min(400, agg['paths'] // max(jobs, 1)))
-                batch = [work.pop()]
-                # when plenty of work is queued give each task a few prefixes
-                while work and len(batch) < 4 and len(work) > 4 * jobs: batch.append(work.pop())
-                pending.append(pool.apply_async(explore_subtree, ((spec, batch, budget, 30.0),)))
-            # collect
-            done = [r for r in pending if r.ready()]
+        while True:
+            # dispatch round-robin over specs with queued work
+            progress_made = False
+            tries = 0
+            while len(pending) < jobs and tries < n:
+                k = nxt % n; nxt += 1; tries += 1
+                if stopped[k] or not works[k]: continue
+                # limit how many specs are open at once so that each finishes quickly
+                open_specs = sum(1 for x in range(n) if started[x] is not None and finished[x] is None)
+                if started[k] is None and open_specs >= max(2, jobs // 2): continue
+                if started[k] is None: started[k] = time.time()
+                budget = max(2, min(300, aggs[k]['paths'] // max(jobs // 2, 1)))
+                batch = [works[k].pop()]
+                while works[k] and len(batch) < 4 and len(works[k]) > 4 * jobs: batch.append(works[k].pop())
+                pending.append((k, pool.apply_async(explore_subtree, ((specs[k], batch, budget, 20.0),))))
+                inflight[k] += 1
+                tries = 0
+            done = [(k, r) for (k, r) in pending if r.ready()]
             if not done:
-                time.sleep(0.02)
-                if time.time() - t0 > max_seconds or agg['paths'] >= max_paths: break
-                continue
-            for r in done:
-                pending.remove(r)
+                if not pending and not any(works[k] and not stopped[k] for k in range(n)): break
+                time.sleep(0.01)
+            for (k, r) in done:
+                pending.remove((k, r))
+                inflight[k] -= 1
                 res = r.get()
-                agg['paths'] += res['paths']; agg['steps'] += res['steps']; agg['queries'] += res['queries']; agg['solver_s'] += res['solver_s']
-                agg['ends'].update(res['ends']); agg['covers'] |= set(res['covers']); agg['fns'] |= set(res['fns'])
-                agg['max_heap'] = max(agg['max_heap'], res['max_heap']); agg['max_steps_path'] = max(agg['max_steps_path'], res['max_steps_path'])
-                if len(agg['violations']) < 20: agg['violations'].extend(res['violations'])
-                if len(agg['unsupported']) < 10: agg['unsupported'].extend(res['unsupported'])
-                if len(agg['samples']) < 4: agg['samples'].extend(res['samples'])
-                work.extend(res['leftover'])
-            if agg['violations'] and spec.get('stop_on_violation', True) and len(agg['violations']) >= spec.get('max_violations', 3):
-                break
-            if time.time() - t0 > max_seconds or agg['paths'] >= max_paths: break
-        agg['complete'] = not work and not pending
+                merge(aggs[k], res)
+                if not stopped[k]: works[k].extend(res['leftover'])
+                sp = specs[k]
+                if aggs[k]['violations'] and len(aggs[k]['violations']) >= sp.get('max_violations', 3): stopped[k] = True
+            now = time.time()
+            for k in range(n):
+                if started[k] is not None and finished[k] is None:
+                    if not stopped[k] and now - started[k] > specs[k].get('max_seconds', 600): stopped[k] = True
+                    if inflight[k] == 0 and (stopped[k] or not works[k]):
+                        finished[k] = now
+                        aggs[k]['complete'] = not works[k] and not stopped[k] or (not works[k] and bool(aggs[k]['violations']))
+                        aggs[k]['left'] = len(works[k])
+                        aggs[k]['wall_s'] = round(now - started[k], 2)
+                        if progress: progress(k, aggs[k])
     finally:
         if own:
             pool.terminate(); pool.join()
-    agg['left'] = len(work) + len(pending)
-    agg['wall_s'] = round(time.time() - t0, 2)
-    agg['ends'] = dict(agg['ends']); agg['covers'] = sorted(agg['covers']); agg['fns'] = sorted(agg['fns'])
-    return agg
+    for k in range(n):
+        a = aggs[k]
+        if 'wall_s' not in a:
+            a['wall_s'] = 0.0; a['left'] = len(works[k])
+        a['ends'] = dict(a['ends']); a['covers'] = sorted(a['covers']); a['fns'] = sorted(a['fns'])
+    return aggs
+
+
+def explore(spec, ll_files, jobs, max_paths=10**9, max_seconds=10**9, pool=None):
+    sp = dict(spec)
+    if max_seconds < 10**8: sp['max_seconds'] = max_seconds
+    return explore_many([sp], ll_files, jobs, pool=pool)[0]
 
 
 def run_concrete(spec, ll_files=None):
